@@ -73,7 +73,7 @@ def reference(case, exact=False):
 
 
 class Prop(BaseProp):
-    coq_targets = ['ND/Proofs/Agree.vo', 'ND/Proofs/C04_inst.vo', 'ND/Proofs/C04_proofs.vo', 'ND/Proofs/C04_nested.vo', 'ND/Proofs/C03_proofs.vo', 'ND/Proofs/C03_second.vo', 'ND/Proofs/C03_third.vo', 'ND/Proofs/C03_mixed.vo', 'ND/Proofs/C03_mixed3.vo']
+    coq_targets = ['ND/Proofs/Agree.vo', 'ND/Proofs/C04_inst.vo', 'ND/Proofs/C04_proofs.vo', 'ND/Proofs/C04_nested.vo', 'ND/Proofs/C03_proofs.vo', 'ND/Proofs/C03_second.vo', 'ND/Proofs/C03_third.vo', 'ND/Proofs/C03_mixed.vo', 'ND/Proofs/C03_mixed3.vo', 'ND/Proofs/C03_unique.vo']
     extra_model_targets = ['ND/Hand/Prog.vo']
     extra_imports = 'From ND Require Import Prog.'
     model_shard, model_rounds = 32, 12
